@@ -20,10 +20,14 @@ type crit struct {
 type chainSpec struct {
 	Crit    crit   `json:"criterion"`
 	Filters string `json:"filters"` // string of 'a' / 'd'
+	Name    string `json:"name,omitempty"`
 }
 
 func (c chainSpec) proto(i int) *configv1.FilterChain {
 	fc := &configv1.FilterChain{Name: fmt.Sprintf("chain-%d", i)}
+	if c.Name != "" {
+		fc.Name = c.Name
+	}
 	switch c.Crit.Kind {
 	case "eq":
 		fc.Match = &configv1.Match{Header: c.Crit.Header, Criteria: &configv1.Match_Equality{Equality: c.Crit.Val}}
@@ -139,7 +143,7 @@ func runC08(r *Run) {
 	var types []chainSpec
 	for _, c := range crits {
 		for _, f := range filters {
-			types = append(types, chainSpec{c, f})
+			types = append(types, chainSpec{Crit: c, Filters: f})
 		}
 	}
 	hmaps := []map[string]string{nil, {"x-tenant": "a"}, {"x-tenant": "ab"}, {"x-tenant": "b"}, {"X-Tenant": "a", "other": "a"}}
@@ -200,6 +204,54 @@ func runC08(r *Run) {
 			h[pick(r.Rng, names)] = pick(r.Rng, vals)
 		}
 		one(cs, r.Rng.Intn(2) == 0, h, i < 3)
+	}
+	// One ExtAuthZFilter instance serving SEVERAL requests (the service keeps one instance for its lifetime), with chain
+	// names that are not unique (names are free text): the verdict of a request must not depend on earlier requests.
+	m := 1500
+	if r.thorough() {
+		m = 40000
+	}
+	cnames := []string{"a", "a", "b", "main"}
+	for i := 0; i < m; i++ {
+		var cs []chainSpec
+		for k := 1 + r.Rng.Intn(4); k > 0; k-- {
+			c := chainSpec{Name: pick(r.Rng, cnames)}
+			switch r.Rng.Intn(3) {
+			case 0:
+				c.Crit = crit{"-", "", ""}
+			case 1:
+				c.Crit = crit{"eq", "x-tenant", pick(r.Rng, []string{"a", "b", "ab"})}
+			case 2:
+				c.Crit = crit{"pfx", "x-tenant", pick(r.Rng, []string{"a", "b", ""})}
+			}
+			for j := 1 + r.Rng.Intn(3); j > 0; j-- {
+				c.Filters += pick(r.Rng, []string{"a", "a", "d"})
+			}
+			cs = append(cs, c)
+		}
+		au := r.Rng.Intn(2) == 0
+		cfg := &configv1.Config{AllowUnmatchedRequests: au}
+		var cw []string
+		for i, c := range cs {
+			cfg.Chains = append(cfg.Chains, c.proto(i))
+			cw = append(cw, c.wire())
+		}
+		f := server.NewExtAuthZFilter(cfg, nil, nil, nil)
+		var hist []map[string]string
+		for q := 0; q < 4; q++ {
+			h := map[string]string{"x-tenant": pick(r.Rng, []string{"a", "b", "ab", "c"})}
+			hist = append(hist, h)
+			resp, err := f.Check(context.Background(), httpReq("https", "h", "/p", "", h))
+			r.Emit("chain 1 "+b01(au)+" "+listOr(cw, ";")+" "+headersWire(h), showResp(resp, err))
+			code, msg := refJudge(cs, au, h)
+			r.Case(fmt.Sprintf("multi|%s|%v", strings.Join(cw, ";"), hist))
+			r.Dist["multi-request-on-one-instance"]++
+			if err != nil || resp == nil || int(resp.GetStatus().GetCode()) != code || resp.GetStatus().GetMessage() != msg {
+				r.Violate("Check on a long-lived ExtAuthZFilter disagrees with the reference evaluator (the verdict depends on earlier requests or on chain names)",
+					map[string]any{"chains": cs, "allow_unmatched": au, "requests_so_far": hist, "expected_code": code, "got": showResp(resp, err)})
+				break
+			}
+		}
 	}
 	r.Finish("every list of up to the stated number of chains over 30 chain types (5 criteria x 6 filter sequences) x allow_unmatched x 5 header maps (exhaustive), plus random lists of 0-4 chains incl. zero-filter chains, bare criteria, mixed-case names; " +
 		"each case runs the real ExtAuthZFilter.Check with mock filters, the Lean `check`, and the Go reference evaluator; non-trivial = at least two chains, distinct by the whole layout")
